@@ -208,7 +208,7 @@ func (r *Router) sendPingMsg(opts sendPingOpts) error {
 	default:
 		// Destination router is not known, sign raw.
 		f.SetTTL(0)
-		f.SetSequenceTime(time.Now().Round(state.DefaultPrecision).Add(-state.DefaultPrecision))
+		f.SetSequenceTime(state.NextSeqTime(state.DefaultPrecision))
 		if err := f.SignRaw(r.instance.Identity().PrivateKey); err != nil {
 			return fmt.Errorf("sign frame: %w", err)
 		}
